@@ -14,9 +14,19 @@
   (a theorem cannot exhibit scheduling; per-cell volumes are compared bit for bit between
   OMP_NUM_THREADS = 1, 4, 16 runs of the real code), IEEE rounding (theorems are over a field;
   the `Float` run of the same definitions is compared bit for bit with the C++).
+
+  Second round ("One object, many operations"): the state machine of one `EclipseGrid` object
+  (`Model/GridState.lean`: volume cache, ACTNUM and index maps, remembered input arrays;
+  operations activeVolume / resetACTNUM() / resetACTNUM(mask) / the two copy constructors /
+  save), quantified over every operation sequence; what the two `resetACTNUM` forms and the
+  ZCORN-replacing copy constructor do with the cache and with `m_input_zcorn` is regenerated
+  from EclipseGrid.cpp on every run (`Gen/GridCopy.lean`).
 -/
 import OpmVerif.Proofs.Grid
 import OpmVerif.Proofs.GridEgrid
+import OpmVerif.Proofs.GridState
+import OpmVerif.Proofs.GridPos
+import OpmVerif.Proofs.GridFixup
 import OpmVerif.Props.C07
 
 namespace OpmVerif.Props.C13
@@ -151,15 +161,30 @@ theorem vol_positive_box (x0 dx y0 dy z0 dz : K) (hx : 0 < dx) (hy : 0 < dy) (hz
   cellVolume_box_pos x0 dx y0 dy z0 dz hx hy hz
 
 /-- Positivity for vertical-pillar cells (positive footprint, no inverted edge, one edge of
-positive length).  General positivity needs a non-degeneracy hypothesis on the trilinear map and
-is not claimed: `vol_positive_partial`. -/
+positive length) — a special case kept from the first round; the general statement is
+`vol_positive_general` below. -/
 theorem vol_positive_partial (x0 dx y0 dy : K) (Z : Nat → K) (hx : 0 < dx) (hy : 0 < dy)
     (h0 : Z 0 ≤ Z 4) (h1 : Z 1 ≤ Z 5) (h2 : Z 2 ≤ Z 6) (h3 : Z 3 ≤ Z 7)
     (hs : Z 0 < Z 4 ∨ Z 1 < Z 5 ∨ Z 2 < Z 6 ∨ Z 3 < Z 7) :
     0 < signedVol (rectX x0 dx) (rectY y0 dy) Z :=
   signedVol_pillar_pos x0 dx y0 dy Z hx hy h0 h1 h2 h3 hs
 
+/-- **General positivity under an explicit non-degeneracy hypothesis.**  For arbitrary corners:
+if none of the fifteen tetrahedra spanned by corner 0 and (a) the four triangles of the two
+triangulations of each of the three faces not containing corner 0, (b) the far triangle of each
+of the three faces containing corner 0, is inverted, and one of them has positive volume, then
+the generated formula is positive.  (For planar faces the three tetrahedra (b) are flat.) -/
+theorem vol_positive_general (X Y Z : Nat → K) (h : ∀ t ∈ cornerTets X Y Z, 0 ≤ t)
+    (hp : ∃ t ∈ cornerTets X Y Z, 0 < t) : 0 < signedVol X Y Z :=
+  signedVol_pos_of_cornerTets X Y Z h hp
+
 end
+
+/-- The identity behind it: for arbitrary corners over any field of characteristic 0 the
+generated volume is one twelfth of the sum of those fifteen tetrahedron determinants. -/
+theorem vol_eq_corner_tetrahedra {K : Type} [Field K] [CharZero K] (X Y Z : Nat → K) :
+    signedVol X Y Z = (cornerTets X Y Z).sum / 12 :=
+  signedVol_eq_cornerTets X Y Z
 
 /-! ## Input forms -/
 
@@ -305,5 +330,201 @@ example : DependsOnI dIn (fun g => ([5, 7, 5, 7] : List Rat).getD g 0) (fun i =>
 example : let Z : Nat → ℚ := fun n => ([0, 0, 0, 0, 1, 2, 1, 3] : List ℚ).getD n 0
     (0 : ℚ) < 3 ∧ (0 : ℚ) < 4 ∧ Z 0 ≤ Z 4 ∧ Z 1 ≤ Z 5 ∧ Z 2 ≤ Z 6 ∧ Z 3 ≤ Z 7 ∧ Z 0 < Z 4 := by
   norm_num
+
+/-- Hypotheses of `vol_positive_general` met by the twisted (non-planar faces, inclined pillars)
+cell over ℚ: all fifteen tetrahedra positive. -/
+example : (∀ t ∈ cornerTets twisted.X twisted.Y twisted.Z, 0 ≤ t) ∧
+    (∃ t ∈ cornerTets twisted.X twisted.Y twisted.Z, 0 < t) := by
+  decide +kernel
+
+/-! ## One object, many operations (cache, resetACTNUM, copy constructors, save) -/
+
+section Object
+variable {α : Type} [Add α] [Sub α] [Mul α] [Div α] [Neg α] [NatCast α] [BEq α]
+
+/-- **Source fact (generated).**  In the working tree `resetACTNUM()` and
+`resetACTNUM(const int*)` assign `active_volume = std::nullopt` on every path
+(`translate/gridcopy.py` → `Gen/GridCopy.lean`); fails to build when the translator reads
+anything else off the two function bodies. -/
+theorem reset_drops_cache_in_source : Effects.source.DropsCache := by decide
+
+/-- `resetACTNUM()` (iota maps, `m_nactive = size`) is `resetACTNUM(mask)` on the all-ones
+mask, for every grid size. -/
+theorem reset_all_is_reset_ones (n : Nat) : iotaMaps n = resetACTNUM (allActive n) :=
+  iotaMaps_eq n
+
+/-- A freshly constructed corner-point grid (`actnum` = nullptr or one entry per cell) satisfies
+the object invariant: maps = `resetACTNUM` of the ACTNUM, no cache. -/
+theorem fresh_object_coherent (abs : α → α) (fix : Dims → (Nat → α) → Nat × (Nat → α)) (d : Dims)
+    (coord zcorn : Nat → α) (act : Option (List Int)) (hact : ∀ a, act = some a → a.length = d.size) :
+    (initCornerPoint fix d coord zcorn act).Inv abs :=
+  inv_initCornerPoint abs fix d coord zcorn act hact
+
+/-- **Every operation sequence keeps the object coherent** (induction over the sequence):
+ACTNUM has one entry per cell, the index maps are those of the current ACTNUM, and the volume
+cache — when present — holds the geometric volumes of the *current* COORD/ZCORN at the
+*current* active→global map.  For the operations as they are in the working tree. -/
+theorem object_invariant (abs : α → α) (fix : Dims → (Nat → α) → Nat × (Nat → α)) (s : GState α)
+    (h : s.Inv abs) (ops : List (Op α)) : (run abs fix s ops).Inv abs :=
+  inv_runWith Effects.source reset_drops_cache_in_source abs fix s h ops
+
+/-- The same for any variant of the source in which both `resetACTNUM` forms drop the cache. -/
+theorem object_invariant_of_drops_cache (e : Effects) (he : e.DropsCache) (abs : α → α)
+    (fix : Dims → (Nat → α) → Nat × (Nat → α)) (s : GState α) (h : s.Inv abs) (ops : List (Op α)) :
+    (runWith e abs fix s ops).Inv abs :=
+  inv_runWith e he abs fix s h ops
+
+/-- **`getCellVolume` after any history.**  After every operation sequence on a corner-point
+grid, `getCellVolume(g)` of every cell is `|calculateCellVol|` of the corners of `g` in the
+object's current COORD/ZCORN — independent of the cache, of ACTNUM and of the order of the
+operations — and throws exactly beyond the grid. -/
+theorem cell_volume_after_any_sequence (abs : α → α) (fix : Dims → (Nat → α) → Nat × (Nat → α))
+    (d : Dims) (coord zcorn : Nat → α) (act : Option (List Int))
+    (hact : ∀ a, act = some a → a.length = d.size) (ops : List (Op α)) (g : Nat) :
+    let s := run abs fix (initCornerPoint fix d coord zcorn act) ops
+    s.getCellVolume abs g =
+      if g < d.size then some (cellVolume abs (cellCornersG d coord s.zcorn g)) else none := by
+  intro s
+  have hinv : s.Inv abs := object_invariant abs fix _ (inv_initCornerPoint abs fix d coord zcorn act hact) ops
+  have hd : s.d = d := runWith_d Effects.source abs fix _ ops
+  have hc : s.coord = coord := runWith_coord Effects.source abs fix _ ops
+  by_cases hg : g < d.size
+  · rw [if_pos hg, getCellVolume_eq_geom abs s hinv (by rw [hd]; exact hg), GState.geomVolume, hd, hc]
+  · rw [if_neg hg, getCellVolume_out_of_range abs s (by rw [hd]; omega)]
+
+/-- **`activeVolume()` after any history**: one entry per active cell of the current ACTNUM,
+entry `a` being the geometric volume of the `a`-th active cell. -/
+theorem active_volume_after_any_sequence (abs : α → α) (fix : Dims → (Nat → α) → Nat × (Nat → α))
+    (s0 : GState α) (h0 : s0.Inv abs) (ops : List (Op α)) :
+    let s := run abs fix s0 ops
+    (s.activeVolumeResult abs).length = numActive s.actnum ∧
+    ∀ a g, globalOfActive s.maps a = some g →
+      (s.activeVolumeResult abs)[a]? = some (s.geomVolume abs g) := by
+  intro s
+  have hinv : s.Inv abs := object_invariant abs fix s0 h0 ops
+  have := activeVolumeResult_spec abs s hinv
+  refine ⟨?_, this.2⟩
+  rw [this.1, hinv.maps]; rfl
+
+/-- Two objects with the same COORD/ZCORN report the same `getCellVolume` for every cell,
+whatever their ACTNUM masks, caches and histories are. -/
+theorem cell_volume_depends_on_geometry_only (abs : α → α) (s t : GState α) (hs : s.Inv abs)
+    (ht : t.Inv abs) (hd : s.d = t.d) (hc : s.coord = t.coord) (hz : s.zcorn = t.zcorn) (g : Nat) :
+    s.getCellVolume abs g = t.getCellVolume abs g := by
+  by_cases hg : g < s.d.size
+  · rw [getCellVolume_eq_geom abs s hs hg, getCellVolume_eq_geom abs t ht (hd ▸ hg)]
+    simp only [GState.geomVolume, hd, hc, hz]
+  · rw [getCellVolume_out_of_range abs s (by omega), getCellVolume_out_of_range abs t (by rw [← hd]; omega)]
+
+/-- **What `save()` writes.**  Let `fix` be idempotent on the arrays of this grid size
+(`fixupZCORN` is: `fixup_idempotent`).  After every operation sequence on a
+corner-point grid — excluding the ZCORN-replacing copy constructor as long as the source keeps
+`m_input_zcorn` in it (hypothesis vacuous once the generated mode is `reset` or `store`) — the
+COORD array `save()` writes is the current COORD and the ZCORN array it writes becomes the
+current ZCORN under the fix-up every reader applies.  (Float narrowing and the unit factor are
+outside this statement; they are compared bit for bit in the correspondence.) -/
+theorem save_writes_current_geometry (abs : α → α) (fix : Dims → (Nat → α) → Nat × (Nat → α))
+    (d : Dims) (hidem : ∀ z, (fix d (fix d z).2).2 = (fix d z).2) (coord zcorn : Nat → α)
+    (act : Option (List Int)) (ops : List (Op α))
+    (hops : Effects.source.copyZ = .keep → ∀ op ∈ ops, op.isCopyZ = false) :
+    let s := run abs fix (initCornerPoint fix d coord zcorn act) ops
+    s.savedCoord = s.coord ∧ (fix s.d s.savedZcorn).2 = s.zcorn :=
+  saved_geometry fix _ (inputOK_runWith Effects.source abs fix _ hidem
+    (inputOK_initCornerPoint fix d hidem coord zcorn act) ops hops)
+
+/-- The same for every variant of the source, in particular for all sequences when the copy
+constructor resets or re-stores `m_input_zcorn`. -/
+theorem save_writes_current_geometry_of (e : Effects) (abs : α → α)
+    (fix : Dims → (Nat → α) → Nat × (Nat → α)) (s0 : GState α)
+    (hidem : ∀ z, (fix s0.d (fix s0.d z).2).2 = (fix s0.d z).2) (h0 : s0.InputOK fix)
+    (ops : List (Op α)) (hops : e.copyZ = .keep → ∀ op ∈ ops, op.isCopyZ = false) :
+    let s := runWith e abs fix s0 ops
+    s.savedCoord = s.coord ∧ (fix s.d s.savedZcorn).2 = s.zcorn :=
+  saved_geometry fix _ (inputOK_runWith e abs fix s0 hidem h0 ops hops)
+
+end Object
+
+/-! ## `fixupZCORN` -/
+
+section Fixup
+variable {K : Type} [Field K] [LinearOrder K] [IsStrictOrderedRing K]
+
+/-- Along every vertical corner line the adjusted ZCORN has no inversion in the direction of
+`sign` (every list length, every `sign`): `(y_{n+1} - y_n)·sign < 0` never holds. -/
+theorem fixup_line_monotone (sign x : K) (xs : List K) :
+    ∃ ys, fixLine sign (x :: xs) = x :: ys ∧ ChainNoInv sign x ys :=
+  fixLine_chain sign x xs
+
+/-- The adjustment is the running maximum of the line when `sign = 1` and the running minimum
+when `sign = -1` (one step of the recursion). -/
+theorem fixup_step_is_running_extremum (p x : K) :
+    clamp ((1 : Nat) : K) p x = max p x ∧ clamp (-((1 : Nat) : K)) p x = min p x :=
+  ⟨clamp_one p x, clamp_neg_one p x⟩
+
+/-- A line without inversion is left alone, and `cells_adjusted` counts 0 on a line exactly when
+no slot of it changes. -/
+theorem fixup_line_unchanged_iff_count_zero (sign x : K) (xs : List K) :
+    (ChainNoInv sign x xs → fixLine sign (x :: xs) = x :: xs) ∧
+    (lineCount sign (x :: xs) = 0 ↔ fixLine sign (x :: xs) = x :: xs) := by
+  refine ⟨fun h => fixLine_eq_of_chain h, ?_⟩
+  show clampCount sign x xs = 0 ↔ x :: clampList sign x xs = x :: xs
+  rw [clampCount_eq_zero_iff]; simp
+
+/-- **`fixupZCORN` is idempotent** on whole ZCORN arrays of every grid with `nx, ny, nz ≥ 1`: the
+lines of the adjusted array are the adjusted lines (`ZcornMapper::index` is a bijection), the
+direction `sign` read off the adjusted array is that of the input, and a second call adjusts
+nothing and returns 0. -/
+theorem fixup_idempotent (d : Dims) (hx : 0 < d.nx) (hy : 0 < d.ny) (hz : 0 < d.nz) (z : Nat → K) :
+    (fixupG d (fixupG d z).2).2 = (fixupG d z).2 ∧ (fixupG d (fixupG d z).2).1 = 0 :=
+  ⟨fixupG_idem d hx hy hz z, fixupCount_fixupEntry d hx hy hz z⟩
+
+/-- `save_writes_current_geometry` with the real fix-up: no idempotence hypothesis left. -/
+theorem save_writes_current_geometry_fixup (abs : K → K) (d : Dims) (hx : 0 < d.nx) (hy : 0 < d.ny)
+    (hz : 0 < d.nz) (coord zcorn : Nat → K) (act : Option (List Int)) (ops : List (Op K))
+    (hops : Effects.source.copyZ = .keep → ∀ op ∈ ops, op.isCopyZ = false) :
+    let s := run abs fixupG (initCornerPoint fixupG d coord zcorn act) ops
+    s.savedCoord = s.coord ∧ (fixupG s.d s.savedZcorn).2 = s.zcorn :=
+  save_writes_current_geometry abs fixupG d (fun z => fixupG_idem d hx hy hz z) coord zcorn act ops hops
+
+end Fixup
+
+/-- A line over ℚ with two inversions: adjusted to its running maximum, two stores counted. -/
+example : fixLine (1 : ℚ) [1, 3, 2, 5, 4] = [1, 3, 3, 5, 5] ∧ lineCount (1 : ℚ) [1, 3, 2, 5, 4] = 2 ∧
+    fixLine (-1 : ℚ) [5, 3, 4, 1] = [5, 3, 3, 1] := by
+  decide +kernel
+
+/-- **Witness (finding).**  With a copy constructor that keeps the source's `m_input_zcorn`
+(the working tree at the time of writing), `EclipseGrid(src, zcorn', actnum)` followed by
+`save()` writes the *old* ZCORN: in memory the bottom corner is at 2, the saved one at 1. -/
+theorem copyZ_keep_breaks_save :
+    let s := runWith { resetAll := .drop, resetMask := .drop, copyZ := .keep } (fun x => x) witnessFix
+      witnessState witnessOps
+    s.zcorn 4 = 2 ∧ s.savedZcorn 4 = 1 :=
+  OpmVerif.Grid.copyZ_keep_breaks_save
+
+/-- … and with `m_input_zcorn.reset()` in that constructor the saved corner is the current one. -/
+theorem copyZ_reset_saves_current :
+    let s := runWith { resetAll := .drop, resetMask := .drop, copyZ := .reset } (fun x => x) witnessFix
+      witnessState witnessOps
+    s.zcorn 4 = 2 ∧ s.savedZcorn 4 = 2 :=
+  OpmVerif.Grid.copyZ_reset_saves_current
+
+/-- Non-vacuity: a 2×1×1 grid over ℤ with one active cell; the cache is filled, ACTNUM is set to
+the other cell (same number of active cells) and the cache is filled again: the object then
+holds a cache for the *new* active cell, and the hypotheses of `object_invariant` hold. -/
+example :
+    let s0 : GState Int := initCornerPoint witnessFix ⟨2, 1, 1⟩ (fun i => (i : Int)) (fun i => if i < 8 then 0 else 1) (some [1, 0])
+    let s := run (fun x => x) witnessFix s0 [.activeVolume, .reset [0, 1], .activeVolume]
+    s0.Inv (fun x => x) ∧ s.maps.a2g = [1] ∧ s.cache.isSome = true ∧ s.actnum = [0, 1] := by
+  refine ⟨inv_initCornerPoint _ _ _ _ _ _ (by intro a h; cases h; rfl), by decide, by decide, by decide⟩
+
+/-- Non-vacuity of `save_writes_current_geometry`: the trivial fix-up is idempotent and a
+sequence without ZCORN replacement satisfies the side condition. -/
+example : (∀ z, (witnessFix ⟨1, 1, 1⟩ (witnessFix ⟨1, 1, 1⟩ z).2).2 = (witnessFix ⟨1, 1, 1⟩ z).2) ∧
+    (∀ op ∈ ([.activeVolume, .copyA [1], .save] : List (Op Int)), op.isCopyZ = false) := by
+  refine ⟨fun _ => rfl, ?_⟩
+  intro op hop
+  simp only [List.mem_cons, List.mem_nil_iff, or_false] at hop
+  rcases hop with rfl | rfl | rfl <;> rfl
 
 end OpmVerif.Props.C13
